@@ -342,7 +342,7 @@ fn check_state(m: &Modulus, rs: &RelationSet, syms: &[Sym], hist: &[usize], out:
         }
     }
     for (k, r) in ra::partial(rs) {
-        if r.cofactor != k || k >= MAXLARGE || !congruence_holds(&r, m.n) {
+        if r.cofactor != k || k >= rs.maxlarge || !congruence_holds(&r, m.n) {
             out.push(Violation11 {
                 key: format!("modulus={};what=false-partial", m.name),
                 what: format!("history [{}] on n={}: pending relation for large prime {} is x={} cofactor={} factors={:?}: not a congruence", desc(), m.n, k, r.x, r.cofactor, r.factors),
@@ -374,8 +374,12 @@ fn check_state(m: &Modulus, rs: &RelationSet, syms: &[Sym], hist: &[usize], out:
 }
 
 fn replay_history(m: &Modulus, fblen: usize, syms: &[Sym], hist: &[usize]) -> Result<RelationSet, Panicked> {
+    replay_history_ml(m, fblen, syms, hist, MAXLARGE)
+}
+
+fn replay_history_ml(m: &Modulus, fblen: usize, syms: &[Sym], hist: &[usize], maxlarge: u64) -> Result<RelationSet, Panicked> {
     guarded(|| {
-        let mut rs = RelationSet::new(Uint::from_digit(m.n), fblen, MAXLARGE);
+        let mut rs = RelationSet::new(Uint::from_digit(m.n), fblen, maxlarge);
         for &i in hist {
             rs.add(syms[i].rel.clone(), syms[i].pq);
         }
@@ -566,10 +570,12 @@ pub fn run(ctx: &Ctx) -> Report {
         // long chains of double large primes hanging from one partial and closed by another:
         // P(L0), D(L0,L1), ..., D(L[k-1],Lk), P(Lk) for k = 1..9 (cycle lengths up to 11), replayed
         // in a structured set of orders (thorough: EVERY order of the 9 relations of k = 7)
-        {
+        // The same chains with large primes of the sizes real runs produce (just above 2^23: p^2*q
+        // exceeds 64 bits; just above 2^31: p*q needs all 64 bits), up to 3 doubles.
+        for (band_start, band_max, band_len) in [(211u64, MAXLARGE, 10usize), ((1 << 23) + 1, 1 << 24, 4), ((1 << 31) + 1, (1 << 32) - 1, 4)] {
             let mut lg: Vec<u64> = vec![];
-            let mut c = 211;
-            while lg.len() < 10 && c < MAXLARGE {
+            let mut c = band_start;
+            while lg.len() < band_len && c < band_max {
                 if rm::is_prime_u64(c) && m.n % c != 0 && try_make_rel(&m, &fbp, c, 1, false, false, 3000).is_some() {
                     lg.push(c);
                 }
@@ -651,7 +657,7 @@ pub fn run(ctx: &Ctx) -> Report {
                         let mut adds = 0;
                         for h in ch {
                             adds += h.len() as u64;
-                            match replay_history(&m, fb.len(), &chain, h) {
+                            match replay_history_ml(&m, fb.len(), &chain, h, band_max) {
                                 Err(p) => viol.push(Violation11 {
                                     key: format!("modulus={};what=panic;site={};part=long-chain", m.name, p.site),
                                     what: format!("chain of {} doubles, order {:?} of [{}] on n={}: panic {}", k, h, cnames.join(","), m.n, p.short()),
